@@ -3,9 +3,9 @@
   `cmdline/{token,remotecmd}/signcmd.go`, `server/view_sign.go`, `cmdline/verify/verify.go`).
 
   What is modelled, line by line:
-  * `bufio.NewReader` (4096-byte buffer) + `Peek`: nothing is ever consumed, so every `Peek(n)` looks at the stream from
-    offset 0.  `Peek(n)` with `n ≤ 4096` yields the first `min n len` bytes and an error iff fewer than `n` arrived;
-    with `n > 4096` it yields what the buffer holds and `ErrBufferFull`.  The stream is a fixed byte string followed by a
+  * `bufio.NewReaderSize(r, 65540)` + `Peek`: nothing is ever consumed, so every `Peek(n)` looks at the stream from
+    offset 0.  `Peek(n)` with `n ≤ 65540` yields the first `min n len` bytes and an error iff fewer than `n` arrived;
+    with `n > 65540` it yields what the buffer holds and `ErrBufferFull`.  The stream is a fixed byte string followed by a
     persistent end (EOF or error): `peekAny` is the data, `peekOk` the data when `err == nil`.
   * `hasPrefix` / `atPosition` / `contains`, the `switch` of `Detect` as a decision list (`rules`, first match wins; a
     `case` with several expressions is a disjunction), the `MZ` case that probes `e_lfanew` (read as **uint16**) and leaves the
@@ -15,6 +15,9 @@
   * the registered signer modules in registration order and the three look-ups; `ByFile`; the `mod.Sign == nil` test of
     both sign commands; the server's `ByName(sigtype)`; `verifyOne`.
   Go slice expressions are `slice?` (a `none` would be a panic): see `detectR`.
+  Repaired findings keep their original code as `…Orig…` definitions: `rulesOrigFM3` / `detectOrigFM3` (little-endian Mach-O
+  magics only), `rulesOrigFM1` / `mzProbeOrig` / `detectOrigFM1` (4096-byte reader), `detectCompressedOrigP` (gzip / xz
+  decoded), `serverDispatchOrig` (no test for a module without `Sign`).
   Core Lean only.
 -/
 import Relic.Base.Bytes
@@ -57,8 +60,12 @@ def Compression.name : Compression → String
 
 /-! ### bufio -/
 
-/-- `bufio`'s default buffer size: the most `Detect` can ever look at -/
-def bufSize : Nat := 4096
+/-- the size of `Detect`'s buffer, `bufio.NewReaderSize(r, 0x10000+4)`: the most `Detect` can ever look at, and enough for
+    the PE probe at any 16-bit `e_lfanew` -/
+def bufSize : Nat := 65540
+
+/-- `bufio`'s default buffer size, which `Detect` used before finding FM1 was repaired -/
+def bufSizeOrig : Nat := 4096
 
 /-- the bytes `br.Peek(n)` returns (whatever the error) -/
 def peekAny (bs : Bytes) (n : Nat) : Bytes := bs.take (min n bufSize)
@@ -97,6 +104,8 @@ inductive Action where
   | tar
   /-- the body of `case hasPrefix(br, "MZ")` -/
   | mzpe
+  /-- the same body over the 4096-byte reader of the original code (finding FM1) -/
+  | mzpeOrig
   deriving Repr, DecidableEq
 
 structure Rule where
@@ -131,6 +140,9 @@ def pAsm1 : Bytes := [60, 97, 115, 115, 101, 109, 98, 108, 121]
 def pAsm2 : Bytes := [58, 97, 115, 115, 101, 109, 98, 108, 121]
 def pMacho64 : Bytes := [0xcf, 0xfa, 0xed, 0xfe]
 def pMacho32 : Bytes := [0xce, 0xfa, 0xed, 0xfe]
+/-- big-endian images (`FE ED FA CF` / `FE ED FA CE`) -/
+def pMacho64BE : Bytes := [0xfe, 0xed, 0xfa, 0xcf]
+def pMacho32BE : Bytes := [0xfe, 0xed, 0xfa, 0xce]
 def pFat : Bytes := [0xca, 0xfe, 0xba, 0xbe]
 /-- `xar!` -/
 def pXar : Bytes := [0x78, 0x61, 0x72, 0x21]
@@ -149,7 +161,43 @@ def rules : List Rule := [
   ⟨[.at 0 pCfb], .ret .msi⟩,
   ⟨[.at 0 pCab], .ret .cab⟩,
   ⟨[.contains 256 pAsm1, .contains 256 pAsm2], .ret .appManifest⟩,
+  ⟨[.at 0 pMacho64, .at 0 pMacho32, .at 0 pMacho64BE, .at 0 pMacho32BE], .ret .machO⟩,
+  ⟨[.at 0 pFat], .ret .machOFat⟩,
+  ⟨[.at 0 pXar], .ret .xar⟩,
+  ⟨[.at 0 [0x89], .at 0 [0xc2], .at 0 [0xc4]], .ret .pgp⟩
+]
+
+/-- the `switch` of `Detect` before the big-endian Mach-O magics were added (finding FM3) -/
+def rulesOrigFM3 : List Rule := [
+  ⟨[.at 0 pRpm], .ret .rpm⟩,
+  ⟨[.at 0 pDeb], .ret .deb⟩,
+  ⟨[.at 0 pArmor], .ret .pgp⟩,
+  ⟨[.contains 256 pOidCtl], .ret .cat⟩,
+  ⟨[.contains 256 pOidSigned], .ret .pkcs7⟩,
+  ⟨[.at 257 pUstar], .tar⟩,
+  ⟨[.at 0 pMZ], .mzpe⟩,
+  ⟨[.at 0 pCfb], .ret .msi⟩,
+  ⟨[.at 0 pCab], .ret .cab⟩,
+  ⟨[.contains 256 pAsm1, .contains 256 pAsm2], .ret .appManifest⟩,
   ⟨[.at 0 pMacho64, .at 0 pMacho32], .ret .machO⟩,
+  ⟨[.at 0 pFat], .ret .machOFat⟩,
+  ⟨[.at 0 pXar], .ret .xar⟩,
+  ⟨[.at 0 [0x89], .at 0 [0xc2], .at 0 [0xc4]], .ret .pgp⟩
+]
+
+/-- the `switch` of `Detect` with the `MZ` probe over the original 4096-byte reader (finding FM1) -/
+def rulesOrigFM1 : List Rule := [
+  ⟨[.at 0 pRpm], .ret .rpm⟩,
+  ⟨[.at 0 pDeb], .ret .deb⟩,
+  ⟨[.at 0 pArmor], .ret .pgp⟩,
+  ⟨[.contains 256 pOidCtl], .ret .cat⟩,
+  ⟨[.contains 256 pOidSigned], .ret .pkcs7⟩,
+  ⟨[.at 257 pUstar], .tar⟩,
+  ⟨[.at 0 pMZ], .mzpeOrig⟩,
+  ⟨[.at 0 pCfb], .ret .msi⟩,
+  ⟨[.at 0 pCab], .ret .cab⟩,
+  ⟨[.contains 256 pAsm1, .contains 256 pAsm2], .ret .appManifest⟩,
+  ⟨[.at 0 pMacho64, .at 0 pMacho32, .at 0 pMacho64BE, .at 0 pMacho32BE], .ret .machO⟩,
   ⟨[.at 0 pFat], .ret .machOFat⟩,
   ⟨[.at 0 pXar], .ret .xar⟩,
   ⟨[.at 0 [0x89], .at 0 [0xc2], .at 0 [0xc4]], .ret .pgp⟩
@@ -166,10 +214,25 @@ def mzProbe (bs : Bytes) : Bool :=
     | none => false
   else false
 
+/-- `br.Peek(n)` with `err == nil` on the original 4096-byte reader -/
+def peekOkOrig (bs : Bytes) (n : Nat) : Option Bytes :=
+  if n ≤ bufSizeOrig ∧ n ≤ bs.length then some (bs.take n) else none
+
+/-- the `MZ` probe of the original code: `Peek(reloc+4)` fails with `ErrBufferFull` beyond 4096 bytes -/
+def mzProbeOrig (bs : Bytes) : Bool :=
+  let blob := peekAny bs 0x3e
+  if blob.length = 0x3e then
+    let reloc := leVal (blob.drop 0x3c)
+    match peekOkOrig bs (reloc + 4) with
+    | some b2 => b2.drop reloc == pPE
+    | none => false
+  else false
+
 def runAction (bs : Bytes) : Action → FileType
   | .ret t => t
   | .tar => .unknown
   | .mzpe => if mzProbe bs then .pecoff else .unknown
+  | .mzpeOrig => if mzProbeOrig bs then .pecoff else .unknown
 
 def detectWith : List Rule → Bytes → FileType
   | [], _ => .unknown
@@ -177,6 +240,12 @@ def detectWith : List Rule → Bytes → FileType
 
 /-- `magic.Detect` on a stream delivering `bs` -/
 def detect (bs : Bytes) : FileType := detectWith rules bs
+
+/-- `magic.Detect` with the Mach-O rule as it was before finding FM3 was repaired (little-endian magics only) -/
+def detectOrigFM3 (bs : Bytes) : FileType := detectWith rulesOrigFM3 bs
+
+/-- `magic.Detect` with the 4096-byte reader it had before finding FM1 was repaired -/
+def detectOrigFM1 (bs : Bytes) : FileType := detectWith rulesOrigFM1 bs
 
 /-- how many bytes of the stream can influence the verdict on `bs` -/
 def inspected (bs : Bytes) : Nat :=
@@ -210,6 +279,8 @@ def anyR (bs : Bytes) : List Test → Res Bool
     | .panic s => .panic s
     | .diverge => .diverge
 
+/-- `reloc` is an `int` here (`int(binary.LittleEndian.Uint16(…))`), so `reloc+4` cannot wrap.  (In the original code it was a
+    `uint16`; `blob[reloc:reloc+4]` would have wrapped for `reloc ≥ 0xFFFC`, which the 4096-byte reader made unreachable.) -/
 def mzProbeR (bs : Bytes) : Res Bool :=
   let blob := peekAny bs 0x3e
   if blob.length = 0x3e then
@@ -235,6 +306,7 @@ def runActionR (bs : Bytes) : Action → Res FileType
     | .err e => .err e
     | .panic s => .panic s
     | .diverge => .diverge
+  | .mzpeOrig => .ok (if mzProbeOrig bs then .pecoff else .unknown)
 
 def detectWithR : List Rule → Bytes → Res FileType
   | [], _ => .ok .unknown
@@ -302,14 +374,15 @@ def innerType (inner : Option Bytes) : FileType :=
   | none => .unknown
   | some d => if atPos d pUstar 257 then .unknown else .unknown
 
-/-- `DetectCompressed`, with the decoded gzip / xz stream as a parameter -/
-def detectCompressedP (bs : Bytes) (zn : Option (List Bytes)) (inner : Option Bytes) : FileType × Compression :=
+/-- `DetectCompressed` as it was before finding FM7 was repaired: it opened the gzip / xz decoder and looked for a tar header
+    in what came out (`inner` = the decoded stream, a parameter) -/
+def detectCompressedOrigP (bs : Bytes) (zn : Option (List Bytes)) (inner : Option Bytes) : FileType × Compression :=
   if atPos bs pGzip 0 then (innerType inner, .gzip)
   else if atPos bs pXz 0 then (innerType inner, .xz)
   else if atPos bs pZip 0 then (detectZip zn, .none)
   else (detect bs, .none)
 
-/-- `DetectCompressed` -/
+/-- `DetectCompressed` (the compressed stream is not decoded) -/
 def detectCompressed (bs : Bytes) (zn : Option (List Bytes)) : FileType × Compression :=
   if atPos bs pGzip 0 then (.unknown, .gzip)
   else if atPos bs pXz 0 then (.unknown, .xz)
@@ -445,15 +518,25 @@ inductive SrvOut where
   | unknownSigtype
   /-- `mod.Sign(...)` entered -/
   | sign (m : Signer)
-  /-- `mod.Sign` is nil: calling it panics (recovered by the middleware: 500) -/
+  /-- (original code only) `mod.Sign` is nil: calling it panics (recovered by the middleware: 500) -/
   | panicNilSign (m : Signer)
   deriving Repr, DecidableEq
 
-def serverDispatchIn (l : List Signer) (sigtype filename : Bytes) : SrvOut :=
+/-- `serveSign` as it was before finding FM5 was repaired: no test for a module without `Sign` -/
+def serverDispatchOrigIn (l : List Signer) (sigtype filename : Bytes) : SrvOut :=
   if filename = [] then .missingParameter else
   match byNameIn l sigtype with
   | none => .unknownSigtype
   | some m => if m.hasSign then .sign m else .panicNilSign m
+
+def serverDispatchOrig := serverDispatchOrigIn registered
+
+/-- `serveSign`: `if mod == nil || mod.Sign == nil { return ErrUnknownSignatureType }` -/
+def serverDispatchIn (l : List Signer) (sigtype filename : Bytes) : SrvOut :=
+  if filename = [] then .missingParameter else
+  match byNameIn l sigtype with
+  | none => .unknownSigtype
+  | some m => if m.hasSign then .sign m else .unknownSigtype
 
 def serverDispatch := serverDispatchIn registered
 
